@@ -1,5 +1,5 @@
 (* C30 -- executable model of symengine/solve.cpp (closed-form polynomial solving, rational
-   equations, linsolve).
+   equations).
 
    The polynomial solvers receive rational coefficients (low degree first, as produced by
    extract_coeffs) and return *expression templates* [rx]: the sequence of public arithmetic
@@ -345,130 +345,4 @@ Definition solve_rational (num den : list Q) : res sres :=
     end
   else solve_poly num.
 
-(* ------------------------------------------------------------------ linsolve *)
-(* fraction_free_gauss_jordan_solve(A, b, x, pivot = true) on a dense row-major matrix with
-   one right-hand side, over Q.  Indices are checked ([ErrOOB]). *)
-Definition getm (m : list Q) (i : nat) : res Q :=
-  match nth_error m i with Some v => Ok v | None => ErrOOB (N.of_nat i) (N.of_nat (length m)) end.
-
-Fixpoint setm (m : list Q) (i : nat) (v : Q) : list Q :=
-  match m, i with
-  | [], _ => []
-  | _ :: t, O => v :: t
-  | h :: t, S k => h :: setm t k v
-  end.
-
-Local Open Scope res_scope.
-
-(* first row p in [i, col) with A[p][i] <> 0 *)
-Fixpoint find_pivot (A : list Q) (col i p : nat) (fuel : nat) : res (option nat) :=
-  match fuel with
-  | O => Ok None
-  | S f =>
-      if Nat.ltb p col then
-        do v <- getm A (p * col + i);
-        if is0 v then find_pivot A col i (S p) f else Ok (Some p)
-      else Ok None
-  end.
-
-Fixpoint swap_cols (A : list Q) (col p i k : nat) (fuel : nat) : res (list Q) :=
-  match fuel with
-  | O => Ok A
-  | S f =>
-      if Nat.ltb k col then
-        do x <- getm A (p * col + k);
-        do y <- getm A (i * col + k);
-        swap_cols (setm (setm A (p * col + k) y) (i * col + k) x) col p i (S k) f
-      else Ok A
-  end.
-
-(* inner loop over k for row j *)
-Fixpoint row_update (A : list Q) (col i j k : nat) (d : option Q) (fuel : nat) : res (list Q) :=
-  match fuel with
-  | O => Ok A
-  | S f =>
-      if Nat.ltb k col then
-        if Nat.eqb k i then row_update A col i j (S k) d f
-        else
-          do aii <- getm A (i * col + i);
-          do ajk <- getm A (j * col + k);
-          do aji <- getm A (j * col + i);
-          do aik <- getm A (i * col + k);
-          let v := aii * ajk - aji * aik in
-          let v' := match d with Some dd => v / dd | None => v end in
-          row_update (setm A (j * col + k) v') col i j (S k) d f
-      else Ok A
-  end.
-
-Fixpoint elim_rows (A b : list Q) (col i j : nat) (d : option Q) (fuel : nat)
-  : res (list Q * list Q) :=
-  match fuel with
-  | O => Ok (A, b)
-  | S f =>
-      if Nat.ltb j col then
-        if Nat.eqb j i then elim_rows A b col i (S j) d f
-        else
-          do aii <- getm A (i * col + i);
-          do bj <- getm b j;
-          do aji <- getm A (j * col + i);
-          do bi <- getm b i;
-          let v := aii * bj - aji * bi in
-          let v' := match d with Some dd => v / dd | None => v end in
-          let b' := setm b j v' in
-          do A' <- row_update A col i j 0 d col;
-          elim_rows A' b' col i (S j) d f
-      else Ok (A, b)
-  end.
-
-Fixpoint zero_col (A : list Q) (col i j : nat) (fuel : nat) : list Q :=
-  match fuel with
-  | O => A
-  | S f =>
-      if Nat.ltb j col then
-        if Nat.eqb j i then zero_col A col i (S j) f
-        else zero_col (setm A (j * col + i) 0) col i (S j) f
-      else A
-  end.
-
-Fixpoint ffgj_steps (A b : list Q) (col i : nat) (fuel : nat) : res (list Q * list Q) :=
-  match fuel with
-  | O => Ok (A, b)
-  | S f =>
-      if Nat.ltb i col then
-        do d <- (match i with O => Ok None
-                 | S i1 => do v <- getm A (i1 * col + i1); Ok (Some v) end);
-        do op <- find_pivot A col i i (S col);
-        match op with
-        | None => ErrExn EXN_SYMENGINE           (* "Matrix is rank deficient" *)
-        | Some p =>
-            do Ab <- (if Nat.eqb p i then Ok (A, b)
-                      else
-                        do A1 <- swap_cols A col p i i col;
-                        do x <- getm b p;
-                        do y <- getm b i;
-                        Ok (A1, setm (setm b p y) i x));
-            let '(A1, b1) := Ab in
-            do Ab2 <- elim_rows A1 b1 col i 0 d col;
-            let '(A2, b2) := Ab2 in
-            ffgj_steps (zero_col A2 col i 0 col) b2 col (S i) f
-        end
-      else Ok (A, b)
-  end.
-
-Fixpoint final_div (A b : list Q) (col i : nat) (fuel : nat) : res (list Q) :=
-  match fuel with
-  | O => Ok []
-  | S f =>
-      if Nat.ltb i col then
-        do bi <- getm b i;
-        do aii <- getm A (i * col + i);
-        do rest <- final_div A b col (S i) f;
-        Ok (Qred (bi / aii) :: rest)
-      else Ok []
-  end.
-
-(* linsolve(system): A = the first n columns of the n x (n+1) augmented matrix *)
-Definition linsolve (n : nat) (A b : list Q) : res (list Q) :=
-  do Ab <- ffgj_steps A b n 0 n;
-  let '(A', b') := Ab in
-  final_div A' b' n 0 n.
+(* linsolve: see LinsolveModel.v (built on the DenseMatrix model of property C24) *)
